@@ -2,6 +2,7 @@ package rules
 
 import (
 	"fmt"
+	"sort"
 	"regexp"
 	"strings"
 
@@ -1591,3 +1592,115 @@ func S20(rc *RC) {
 	}
 }
 func SPure(n string) bool { return sPure[n] }
+
+// S22: value anchors of the index arithmetic. Four tiny functions carry the arithmetic every
+// other rule takes for granted: ProdInts (the product of the extents), Shape.TotalSize (that
+// product of the shape), Shape.CalcStrides (stride of the last axis 1, each earlier stride the
+// product of the later extents; the column-major calculator is held against it by S10) and the
+// accumulation in Ltoi (offset = sum of coordinate * stride of its own axis). Their canonical
+// forms are compared with the textbook terms: same statement skeleton and another term is a
+// violation; another skeleton is a restructuring the rule does not judge.
+var s22Anchors = map[string]string{
+	"tensor.ProdInts": `$ret0 = 1
+if (0 == len($a))
+  return 
+range $a as @r
+  $ret0 = ($a[@r] * $ret0)
+return 
+`,
+	"tensor.(Shape).TotalSize": `return ProdInts([]int($r))
+`,
+	"tensor.(Shape).CalcStrides": `if $r.IsScalar()
+  return nil
+%retVal = BorrowInts(len($r))
+%acc = 1
+%i = (len($r) - 1)
+for (%i >= 0) ; %i = (%i - 1)
+  %retVal[%i] = %acc
+  if (0 > $r[%i])
+    panic("negative dimension size does not make sense")
+  %acc = ($r[%i] * %acc)
+return %retVal
+`,
+}
+
+func S22(rc *RC) {
+	rc.S.Declare("S22", "value anchors: ProdInts is the product of its elements, Shape.TotalSize that product of the shape, Shape.CalcStrides the suffix-product recurrence, and Ltoi accumulates coordinate * stride of the coordinate's own axis (the single shared stride only for a vector that carries one stride)", 4)
+	var keys []string
+	for k := range s22Anchors {
+		keys = append(keys, k)
+	}
+	sort.Strings(keys)
+	for _, key := range keys {
+		fi := anchor(rc, "S22", key)
+		if fi == nil {
+			continue
+		}
+		pos := rc.P.Pos(fi.Decl.Pos())
+		c := ir.NewCanon(rc.P.Fset, fi.Pkg.TypesInfo, ir.Options{ParamNames: true, KeepNames: true})
+		got := ir.Render(c.Func(fi.Decl))
+		want := s22Anchors[key]
+		switch {
+		case got == want:
+			rc.S.Ok("S22", key, pos, "canonical form equals the textbook term")
+		case sameSkeleton(got, want):
+			rc.S.Viol("S22", key, pos, "the calculator deviates from the textbook term: "+firstDiff(got, want)).Sig = firstDiff(got, want)
+		default:
+			rc.S.Undec("S22", key, pos, "another statement skeleton than the reference (restructured): not judged")
+		}
+	}
+	// Ltoi: the accumulation clause
+	fi := anchor(rc, "S22", "tensor.Ltoi")
+	if fi == nil {
+		return
+	}
+	pos := rc.P.Pos(fi.Decl.Pos())
+	c := ir.NewCanon(rc.P.Fset, fi.Pkg.TypesInfo, ir.Options{ParamNames: true, KeepNames: true})
+	tree := c.Func(fi.Decl)
+	var bad []string
+	acc := 0
+	var walk func(ns []*ir.Node, loopVar string, guards []string)
+	walk = func(ns []*ir.Node, loopVar string, guards []string) {
+		for _, n := range ns {
+			lv := loopVar
+			if n.Kind == "range" && strings.HasPrefix(n.Head, "range $coords as ") {
+				lv = strings.TrimPrefix(n.Head, "range $coords as ")
+			}
+			if (n.Kind == "store" || n.Kind == "let") && n.Target == "$ret0" && lv != "" {
+				acc++
+				ok1 := n.Value == "($ret0 + ($coords["+lv+"] * %stride))" || n.Value == "(($coords["+lv+"] * %stride) + $ret0)"
+				ok2 := n.Value == "($ret0 + ($coords["+lv+"] * $strides["+lv+"]))" || n.Value == "(($coords["+lv+"] * $strides["+lv+"]) + $ret0)"
+				if !ok1 && !ok2 {
+					bad = append(bad, "the offset is accumulated as "+n.Value+", not as offset + coordinate * stride of the same axis")
+				}
+			}
+			if (n.Kind == "store" || n.Kind == "let") && n.Target == "%stride" && lv != "" {
+				switch n.Value {
+				case "$strides[" + lv + "]":
+				case "$strides[0]":
+					g := strings.Join(guards, " && ")
+					if !strings.Contains(g, "$shape.IsVector()") || !strings.Contains(g, "len($strides)") {
+						bad = append(bad, "the shared stride $strides[0] is used outside the one-stride vector case")
+					}
+				default:
+					bad = append(bad, "the stride of axis "+lv+" is taken as "+n.Value)
+				}
+			}
+			if n.Kind == "if" {
+				walk(n.Kids, lv, append(append([]string{}, guards...), n.Head))
+				walk(n.Else, lv, append(append([]string{}, guards...), "!"+n.Head))
+				continue
+			}
+			walk(n.Kids, lv, guards)
+		}
+	}
+	walk(tree, "", nil)
+	switch {
+	case acc == 0:
+		rc.S.Undec("S22", "tensor.Ltoi#sum", pos, "no accumulation into the offset found inside the loop over the coordinates")
+	case len(bad) > 0:
+		rc.S.Viol("S22", "tensor.Ltoi#sum", pos, strings.Join(uniq(bad), "; ")).Sig = firstWords(bad)
+	default:
+		rc.S.Ok("S22", "tensor.Ltoi#sum", pos, "offset = sum of coordinate * stride of its own axis")
+	}
+}
